@@ -214,6 +214,17 @@ def determine_constraints(
             f"{prev_block.depth_info.stack_class_types[idx]}"
         )
 
+    # Never bring two identical sign characters together: "- -1" would become
+    # "--1" (an inline comment) and "~ ~1" a different operator.
+    if prev_block and next_block and prev_block.segments and next_block.segments:
+        prev_raw = prev_block.segments[-1].raw
+        next_raw = next_block.segments[0].raw
+        if prev_raw and next_raw and prev_raw[-1] == next_raw[0] in ("-", "+", "~"):
+            if pre_constraint == "touch":
+                pre_constraint = "single"
+            if post_constraint == "touch":
+                post_constraint = "single"
+
     return pre_constraint, post_constraint, strip_newlines
 
 
